@@ -277,7 +277,18 @@ func (w *World) userCount() {
 	for _, v := range w.loopTasks {
 		inflight += v
 	}
-	if cw.moved || inflight > 0 || w.pendingRegs() > 0 || pendingBefore > 0 {
+	// a connection whose close has a cause already (requested locally, peer gone,
+	// fault) may be anywhere between its removal from the registry and its OnClose
+	closing := 0
+	for _, cs := range w.conns {
+		if cs != nil && cs.opened && !cs.closed && !cs.udp {
+			ps := w.peers[cs.idx]
+			if cs.localReq || cs.peerCause || cs.failed != nil || ps.closedByPeer || cs.sock.PeerSawFinOrErr() || cs.sock.PeerGone() || w.faultTouched(cs) {
+				closing++
+			}
+		}
+	}
+	if cw.moved || inflight > 0 || w.pendingRegs() > 0 || pendingBefore > 0 || closing > 0 {
 		w.probes["count-calls-overlapping-changes"]++
 		return
 	}
